@@ -20,6 +20,8 @@ CONSTANTS Ctx <- McCtxTerm
  BGL = {}
  BoxFrom = {}
  BoxTo = {}
+ BoxSeqs = {}
+ SpendFrom = {}
  RewFrom = {"F", "a2"}
  RewTerms = {0, 1}
  RewAmt = {0, 3, 500, 300000, 600000}
